@@ -178,7 +178,7 @@ func runCheck(prop, tier string) int {
 			cmd := exec.Command(self, "worker", prop, tier)
 			cmd.Env = append(os.Environ(), "GOMAXPROCS=1", "GOMEMLIMIT=3GiB")
 			if c.Race {
-				cmd.Env = append(cmd.Env, fmt.Sprintf("GORACE=log_path=%s/race-%d-%d halt_on_error=0", os.TempDir(), os.Getpid(), w))
+				cmd.Env = append(cmd.Env, fmt.Sprintf("GORACE=log_path=%s/race-%d-%d halt_on_error=0 exitcode=0", os.TempDir(), os.Getpid(), w))
 			}
 			cmd.Stderr = os.Stderr
 			stdin, _ := cmd.StdinPipe()
